@@ -245,19 +245,19 @@ func runC10(c *Ctx) {
 		} else {
 			init, step := false, false
 			for _, e := range cur.Edges {
-				if b, ok := e.(*ssa.BinOp); ok && b.Op == token.ADD && isLoadOfGlobal(b.X, infoData) {
-					if k, ok := constInt64(b.Y); ok && k == 8 {
+				if other, ok := matchAdd(e, func(v ssa.Value) bool { return isLoadOfGlobal(v, infoData) }); ok {
+					if k, ok := constInt64(other); ok && k == 8 {
 						init = true
 						continue
 					}
 				}
-				if b, ok := e.(*ssa.BinOp); ok && b.Op == token.ADD && b.X == ssa.Value(cur) {
+				if other, ok := matchAdd(e, func(v ssa.Value) bool { return v == ssa.Value(cur) }); ok {
 					// step = up3(size of the header at cur)
-					sp := z.Of(b.Y).String()
+					sp := z.Of(other).String()
 					hdrOK := false
-					if _, isUp := matchUp(3, z.Of(b.Y)); isUp {
+					if _, isUp := matchUp(3, z.Of(other)); isUp {
 						// the size that is rounded is the size field of the tag header at the cursor
-						hdrOK = valueReads(b.Y, tagSizeF, cur)
+						hdrOK = valueReads(other, tagSizeF, cur)
 					}
 					if hdrOK {
 						step = true
@@ -295,19 +295,17 @@ func runC10(c *Ctx) {
 		} else {
 			init, step := false, false
 			for _, e := range cur.Edges {
-				if b, ok := e.(*ssa.BinOp); ok && b.Op == token.ADD && b.X == payload {
-					if k, ok := constInt64(b.Y); ok && k == 8 {
+				if other, ok := matchAdd(e, func(v ssa.Value) bool { return v == payload }); ok {
+					if k, ok := constInt64(other); ok && k == 8 {
 						init = true
 						continue
 					}
 				}
-				if b, ok := e.(*ssa.BinOp); ok && b.Op == token.ADD && b.X == ssa.Value(cur) {
-					if valueReads(b.Y, entrySizeF, payload) && z.Of(b.Y).String() == pathString(accessPath(stripConv(b.Y).(*ssa.UnOp).X)) {
-						step = true
-					} else if valueReads(b.Y, entrySizeF, payload) {
+				if other, ok := matchAdd(e, func(v ssa.Value) bool { return v == ssa.Value(cur) }); ok {
+					if valueReads(other, entrySizeF, payload) {
 						step = true
 					} else {
-						bad = "the entry cursor advances by " + z.Of(b.Y).String() + ", expected the entrySize field of this tag's header (entries may be larger than the Go struct)"
+						bad = "the entry cursor advances by " + z.Of(other).String() + ", expected the entrySize field of this tag's header (entries may be larger than the Go struct)"
 					}
 					continue
 				}
@@ -321,8 +319,8 @@ func runC10(c *Ctx) {
 				okEnd := false
 				for _, f := range g.AllEdgeFacts() {
 					if f.Y != nil && (f.Op == token.NEQ || f.Op == token.LSS) && f.X == ssa.Value(cur) {
-						if b, ok := f.Y.(*ssa.BinOp); ok && b.Op == token.ADD && b.X == payload {
-							if _, ok := m.resultOf(stripConv(b.Y), findTag, 1); ok {
+						if other, ok := matchAdd(f.Y, func(v ssa.Value) bool { return v == payload }); ok {
+							if _, ok := m.resultOf(stripConv(other), findTag, 1); ok {
 								okEnd = true
 							}
 						}
@@ -644,4 +642,20 @@ func provenance(m *Module, v ssa.Value, infoData *ssa.Global, findTag *ssa.Funct
 		foreign = append(foreign, describe(v))
 	}
 	return
+}
+
+
+// matchAdd: e is an addition one of whose operands satisfies isA; returns the other.
+func matchAdd(e ssa.Value, isA func(ssa.Value) bool) (ssa.Value, bool) {
+	b, ok := e.(*ssa.BinOp)
+	if !ok || b.Op != token.ADD {
+		return nil, false
+	}
+	if isA(b.X) {
+		return b.Y, true
+	}
+	if isA(b.Y) {
+		return b.X, true
+	}
+	return nil, false
 }
